@@ -174,15 +174,26 @@ def task_mutators(shape):
         def fresh():
             return chk.call(KV, list(U))
 
+        def distinct(vec):
+            out = []
+            for v in vec:
+                if not out or not spec.iszero(out[-1] - v):
+                    out.append(v)
+            return out
+
         def expect_ok(label, op, want_vec, want_p):
             k = fresh()
+            chk.call(lambda: (k.knots, k.limits, k.npts, k.degree))     # queries BEFORE the operation: no stale answers afterwards
             try:
                 r = chk.call(op, k)
             except Exception as e:
                 chk.add("ok:" + label, False, "valid request raised %s: %s" % (type(e).__name__, str(e)[:80]))
                 return
             got = list(k)
-            good = vec_eq(got, want_vec) and k.degree == want_p and k.npts == len(want_vec) - want_p - 1 and wf_sym(ctx, got, k.degree)
+            kn_after = list(chk.call(lambda: k.knots))
+            lim_after = chk.call(lambda: k.limits)
+            good = vec_eq(got, want_vec) and k.degree == want_p and k.npts == len(want_vec) - want_p - 1 and wf_sym(ctx, got, k.degree) and \
+                vec_eq(kn_after, distinct(want_vec)) and vec_eq(list(lim_after), [want_vec[0], want_vec[-1]])
             chk.add("ok:" + label, good, "result is the specified well-formed vector (degree %d, npts %d)" % (want_p, len(want_vec) - want_p - 1))
 
         def expect_reject(label, op, excs=(ValueError,)):
